@@ -28,7 +28,15 @@ def suffix_pcr_pair(k, rnd):
     from harness.props import c03
     n = rnd.randint(3, 6)
     items = []
-    for i in range(1, n + 1):
+    if rnd.random() < 0.5:
+        # structured: m forward label,PCR statements over one filler whose length puts the first span within a few bytes of the 8-bit limit
+        # (whether it is decided in the first sweep then depends on the ones after it), and backward references appended behind
+        m = rnd.randint(1, 3)
+        bases = [rnd.choice([2, 2, 3]) for _ in range(m)]
+        f = 127 - sum(b + 1 for b in bases[1:]) - rnd.randint(-2, 10)
+        items = [{"k": "pcr", "sz": 0, "tgt": m + 2, "base": b, "mx": 0} for b in bases] + [{"k": "fix", "sz": f, "tgt": 0, "base": 0, "mx": f}, {"k": "fix", "sz": 1, "tgt": 0, "base": 0, "mx": 1}]
+        n = len(items)
+    for i in range(1, n + 1 if not items else 0):
         if rnd.random() < 0.4:
             items.append({"k": "fix", "sz": rnd.choice([0, 1, 3, 110, 116, 117, 118, 119, 120, 121, 122, 123, 124, 125, 126, 127, 128]), "tgt": 0, "base": 0, "mx": 0})
             items[-1]["mx"] = items[-1]["sz"]
